@@ -242,6 +242,10 @@ TRANSLATED = [
     (U, 'UGrid._make_polygons', 'trans_ugridsrc', ['Ems.Gen.UgridSrc.ugridPolygons'], ['Ems.C06Src.ugrid_polygons_src']),
     # ---- C02 / C06: holes keep their slot (harness/trans_holessrc.py -> Gen/HolesSrc.lean)
     (UT, 'make_polygons_with_holes', 'trans_holessrc', ['Ems.Gen.HolesSrc.holesSrc'], ['Ems.C02.holes_generated']),
+    # ---- C19: plot artists (harness/trans_plotsrc.py -> Gen/PlotSrc.lean)
+    (B, 'Convention.make_poly_collection', 'trans_plotsrc', ['Ems.Gen.plotSrcMakePolyCollection'], ['Ems.C19.src_poly_collection_spec']),
+    (B, 'Convention.make_quiver', 'trans_plotsrc', ['Ems.Gen.plotSrcMakeQuiver'], ['Ems.C19.src_quiver_spec', 'Ems.C19.src_quiver_default']),
+    (P, 'polygons_to_collection', 'trans_plotsrc', ['Ems.Gen.plotSrcPolygonsToCollection'], ['Ems.C19.src_collection_spec']),
     # ---- earlier phases (harness/pipelines.py -> Gen/Pipelines.lean; harness/tables.py -> Gen/Tables.lean)
     (G, 'CFGrid1D._make_polygons', 'pipelines', ['Ems.Gen.cf1dPolygonPoints'], ['Ems.C06.cf1d_pipeline_spec']),
     (G, 'CFGrid2D._make_polygons', 'pipelines', ['Ems.Gen.cf2dPolygonPoints'], ['Ems.C06.cf2d_pipeline_spec']),
